@@ -13,10 +13,17 @@ RULE = ("request lines through the real _RequestHandler.handle + HSM2ProtocolLed
         "arrays, 5000-digit integers, NaN, duplicate keys, wrong-typed command, out-of-range integers, "
         "brothers that are hex but not RLP / RLP strings / nested lists, >255 brothers, >64 KiB witness "
         "scripts, oversized proofs and blocks) with conforming and status-word-injecting device policies; "
+        "valid JSON nested 100..1350 levels deep, and every depth 1400..1560 around CPython's recursion limit "
+        "with a log handler attached as in production (the deeply nested member is dropped from the model's "
+        "input; whether such a depth still parses is an observed input); "
         "plus whole manager lifetimes (2..8 mixed lines on one manager and one device, link / status faults anywhere "
         "in the exchange sequence, repairs) against the model's `serve`; non-trivial = the line decodes to a JSON object naming one of the ten commands and the device "
         "conformed; distinct by hash of the canonical case")
-ASSUMPTIONS = ["the set of Python exception sources is validated by this differential run, not derived from "
+ASSUMPTIONS = ["within reach of CPython's recursion limit the outcome class of json.loads / of handling the parsed value "
+               "(accepted, or refused as a format error) depends on the depth of the call stack and is taken from "
+               "the run (deep-json-boundary stream); the property itself - one JSON reply with an errorcode, the "
+               "server goes on - is still checked on those runs",
+               "the set of Python exception sources is validated by this differential run, not derived from "
                "CPython's semantics", "CPython's JSON grammar is not re-modelled: the decode outcome class "
                "(not UTF-8 / not JSON / value) is an input of the model",
                "python-bitcoinlib is represented by /verif/shims/bitcoin"]
